@@ -13,7 +13,7 @@ use std::collections::{BTreeMap, HashMap, HashSet};
 use std::sync::atomic::{AtomicUsize, Ordering};
 use std::sync::{Arc, Mutex};
 
-use locustdb::verif::{ColumnBuffer, DataSource, InputColumn, Lru, Partition, Table};
+use locustdb::verif::{Column, ColumnBuffer, ColumnLoader, DataSource, DiskReadScheduler, InnerLocustDB, InputColumn, Lru, Partition, PartitionID, QueryPerfCounter, RawVal, Table};
 use shuttle::scheduler::{Schedule, Scheduler, Task, TaskId};
 
 // ---------------------------------------------------------------------------------------------
@@ -43,7 +43,17 @@ struct Shared {
     /// stop after this many executions (cap; reported)
     cap: u64,
     capped: bool,
+    /// (task, how many decisions in a row it has been chosen while another task was enabled)
+    streak: (usize, usize),
+    fairness_switches: u64,
+    /// executions by length class (decisions): <200, <1000, <5000, >=5000
+    length_classes: [u64; 4],
+    long_example: Option<Vec<usize>>,
 }
+
+/// A thread that spins (retry loop around a flag) would keep the default policy busy forever: after this many
+/// consecutive decisions it is treated as yielding, i.e. the others come first and the switch is not a preemption.
+const SPIN_LIMIT: usize = 60;
 
 #[derive(Clone)]
 struct BoundedDfs {
@@ -68,8 +78,25 @@ impl Scheduler for BoundedDfs {
             sh.started = true;
             sh.stack.clear();
             sh.pos = 0;
+            sh.streak = (usize::MAX, 0);
             sh.executions += 1;
             return Some(Schedule::new(0));
+        }
+        if sh.started && sh.forced.is_none() {
+            let n = sh.pos;
+            let k = if n < 200 { 0 } else if n < 1000 { 1 } else if n < 5000 { 2 } else { 3 };
+            sh.length_classes[k] += 1;
+            if k == 3 && sh.long_example.is_none() {
+                let mut rle: Vec<(usize, usize)> = vec![];
+                for f in sh.stack.iter().take(n) {
+                    let t = f.options[f.chosen];
+                    match rle.last_mut() {
+                        Some((lt, m)) if *lt == t => *m += 1,
+                        _ => rle.push((t, 1)),
+                    }
+                }
+                sh.long_example = Some(rle.iter().take(60).flat_map(|(t, m)| vec![*t, *m]).collect());
+            }
         }
         if sh.diverged.is_some() {
             return None;
@@ -96,6 +123,7 @@ impl Scheduler for BoundedDfs {
             return None;
         }
         sh.pos = 0;
+        sh.streak = (usize::MAX, 0);
         sh.executions += 1;
         Some(Schedule::new(0))
     }
@@ -105,16 +133,21 @@ impl Scheduler for BoundedDfs {
         let mut ids: Vec<usize> = runnable.iter().map(|t| usize::from(t.id())).collect();
         ids.sort();
         let cur = current.map(usize::from);
-        let current_enabled = !is_yielding && cur.map(|c| ids.contains(&c)).unwrap_or(false);
+        let spinning = cur.map(|c| sh.streak.0 == c && sh.streak.1 >= SPIN_LIMIT && ids.len() > 1).unwrap_or(false);
+        if spinning {
+            sh.fairness_switches += 1;
+        }
+        let current_enabled = !is_yielding && !spinning && cur.map(|c| ids.contains(&c)).unwrap_or(false);
         let mut options = vec![];
         if current_enabled {
             options.push(cur.unwrap());
         }
         for i in &ids {
-            if !(current_enabled && Some(*i) == cur) {
+            if !((current_enabled || spinning) && Some(*i) == cur) {
                 options.push(*i);
             }
         }
+        // (a spinning task is not offered at this decision: somebody else has to run before its loop can end)
         let pos = sh.pos;
         if let Some(forced) = sh.forced.clone() {
             let c = forced.get(pos).copied().unwrap_or(0);
@@ -127,6 +160,7 @@ impl Scheduler for BoundedDfs {
             let pre = sh.stack.last().map(|f| f.preemptions_before + if f.current_enabled && f.chosen > 0 { 1 } else { 0 }).unwrap_or(0);
             sh.stack.push(Frame { options: options.clone(), chosen: c, preemptions_before: pre, current_enabled });
             sh.pos += 1;
+            sh.streak = if sh.streak.0 == options[c] && ids.len() > 1 { (options[c], sh.streak.1 + 1) } else { (options[c], 0) };
             return Some(TaskId::from(options[c]));
         }
         if pos < sh.stack.len() {
@@ -148,6 +182,7 @@ impl Scheduler for BoundedDfs {
         let c = sh.stack[pos].chosen;
         sh.pos += 1;
         sh.decisions += 1;
+        sh.streak = if sh.streak.0 == options[c] && ids.len() > 1 { (options[c], sh.streak.1 + 1) } else { (options[c], 0) };
         if sh.pos > sh.max_depth {
             sh.max_depth = sh.pos;
         }
@@ -205,15 +240,20 @@ struct Scenario {
     evict: bool,
     /// two query threads instead of one
     two_queries: bool,
+    /// column-load scenario: the queries read the column of an evicted partition through DiskReadScheduler::get_or_load
+    load: bool,
 }
 
-const SCENARIOS: [Scenario; 6] = [
-    Scenario { name: "flush+query", compaction: false, ingest: false, evict: false, two_queries: false },
-    Scenario { name: "flush+ingest+query", compaction: false, ingest: true, evict: false, two_queries: false },
-    Scenario { name: "flush+compaction+query", compaction: true, ingest: false, evict: false, two_queries: false },
-    Scenario { name: "flush+compaction+ingest+query", compaction: true, ingest: true, evict: false, two_queries: false },
-    Scenario { name: "flush+compaction+evict+query", compaction: true, ingest: false, evict: true, two_queries: false },
-    Scenario { name: "flush+ingest+two-queries", compaction: false, ingest: true, evict: false, two_queries: true },
+const SCENARIOS: [Scenario; 9] = [
+    Scenario { name: "flush+query", compaction: false, ingest: false, evict: false, two_queries: false, load: false },
+    Scenario { name: "flush+ingest+query", compaction: false, ingest: true, evict: false, two_queries: false, load: false },
+    Scenario { name: "flush+compaction+query", compaction: true, ingest: false, evict: false, two_queries: false, load: false },
+    Scenario { name: "flush+compaction+ingest+query", compaction: true, ingest: true, evict: false, two_queries: false, load: false },
+    Scenario { name: "flush+compaction+evict+query", compaction: true, ingest: false, evict: true, two_queries: false, load: false },
+    Scenario { name: "flush+ingest+two-queries", compaction: false, ingest: true, evict: false, two_queries: true, load: false },
+    Scenario { name: "load+load", compaction: false, ingest: false, evict: false, two_queries: true, load: true },
+    Scenario { name: "load+evict", compaction: false, ingest: false, evict: true, two_queries: false, load: true },
+    Scenario { name: "load+load+evict", compaction: false, ingest: false, evict: true, two_queries: true, load: true },
 ];
 
 // batches: ids are consecutive so that a prefix of the ingestion history is a prefix of 1..=9
@@ -259,7 +299,7 @@ fn check_snapshot(snap: &[Arc<Partition>], acked_before: usize, acked_after: usi
                     let mut v = vec![];
                     for i in 0..d.len() {
                         match d.get_raw(i) {
-                            locustdb::verif::RawVal::Int(x) => v.push(x),
+                            RawVal::Int(x) => v.push(x),
                             other => return Err(("cell-type".into(), format!("id column holds {:?}", other))),
                         }
                     }
@@ -301,7 +341,107 @@ fn check_snapshot(snap: &[Arc<Partition>], acked_before: usize, acked_after: usi
     Ok(format!("rows={} parts={}", next, parts.len()))
 }
 
+/// The "disk" of the load scenarios: returns the column of partition 0 whenever asked.
+struct FakeStore;
+
+fn id_column(ids: &[i64]) -> Arc<Column> {
+    let mut b = ColumnBuffer::default();
+    b.push_ints(ids.iter().copied(), None);
+    b.finalize("id")
+}
+
+impl ColumnLoader for FakeStore {
+    fn load_column(&self, _table: &str, _partition: PartitionID, _column: &str, _perf: &QueryPerfCounter) -> Option<Vec<Column>> {
+        Some(vec![Arc::try_unwrap(id_column(&BATCH_A)).expect("fresh column")])
+    }
+    fn load_column_range(&self, _: PartitionID, _: PartitionID, _: &str, _: &InnerLocustDB) {
+        unimplemented!()
+    }
+    fn partition_has_been_loaded(&self, _: &str, _: PartitionID, _: &str) -> bool {
+        false
+    }
+    fn mark_subpartition_as_loaded(&self, _: &str, _: PartitionID, _: &str) {}
+}
+
+fn read_ids(p: &Partition, drs: &DiskReadScheduler) -> Result<Vec<i64>, (String, String)> {
+    let mut want = HashSet::new();
+    want.insert("id".to_string());
+    let cols = p.get_cols(&want, drs, &QueryPerfCounter::default());
+    let Some(c) = cols.get("id") else {
+        return Err(("column-missing".into(), "get_cols did not return column id of a partition that has it on disk".into()));
+    };
+    let mut store = Vec::new();
+    let d = c.decode(&mut store);
+    let mut v = vec![];
+    for i in 0..d.len() {
+        match d.get_raw(i) {
+            RawVal::Int(x) => v.push(x),
+            other => return Err(("cell-type".into(), format!("id column holds {:?}", other))),
+        }
+    }
+    if v != BATCH_A.to_vec() {
+        return Err(("wrong-values".into(), format!("column id of partition 0 reads {:?}, stored {:?}", v, BATCH_A)));
+    }
+    Ok(v)
+}
+
+fn body_load(sc: Scenario, report: Arc<Report>, sched: BoundedDfs) {
+    let lru = Lru::default();
+    let table = Arc::new(Table::new("t", lru.clone(), Some(HashSet::new())));
+    let drs = Arc::new(DiskReadScheduler::new(Arc::new(FakeStore), lru.clone(), 8, false));
+    // setup: one flushed partition whose column has been evicted
+    table.ingest_homogeneous(batch(&BATCH_A));
+    table.freeze_buffer();
+    let p0 = table.verif_batch().expect("partition 0");
+    table.verif_make_evictable(p0.id);
+    while let Some(victim) = lru.evict() {
+        table.evict(&victim);
+    }
+    let fail = {
+        let report = report.clone();
+        let sched = sched.clone();
+        Arc::new(move |sig: String, what: String| {
+            let mut v = report.violations.lock().unwrap();
+            if v.len() < 50 {
+                v.push(Violation { sig, what, choices: sched.choices() });
+            }
+        })
+    };
+    let mut handles = vec![];
+    for _ in 0..(if sc.two_queries { 2 } else { 1 }) {
+        let (p0, drs, fail, report) = (p0.clone(), drs.clone(), fail.clone(), report.clone());
+        handles.push(shuttle::thread::spawn(move || {
+            report.snapshots_checked.fetch_add(1, Ordering::SeqCst);
+            match read_ids(&p0, &drs) {
+                Ok(_) => *report.outcomes.lock().unwrap().entry("column-read".into()).or_insert(0) += 1,
+                Err((kind, what)) => {
+                    *report.outcomes.lock().unwrap().entry(format!("violation:{}", kind)).or_insert(0) += 1;
+                    fail(format!("C10:locks:load:{}", kind), what);
+                }
+            }
+        }));
+    }
+    if sc.evict {
+        let (table, lru) = (table.clone(), lru.clone());
+        handles.push(shuttle::thread::spawn(move || {
+            while let Some(victim) = lru.evict() {
+                table.evict(&victim);
+            }
+        }));
+    }
+    for h in handles {
+        let _ = h.join();
+    }
+    // quiescent: the column can still be read
+    if let Err((kind, what)) = read_ids(&p0, &drs) {
+        fail(format!("C10:locks:load:final:{}", kind), what);
+    }
+}
+
 fn body(sc: Scenario, report: Arc<Report>, sched: BoundedDfs) {
+    if sc.load {
+        return body_load(sc, report, sched);
+    }
     let lru = Lru::default();
     let table = Arc::new(Table::new("t", lru.clone(), Some(HashSet::new())));
     // the one lock of this protocol that lives outside the table: InnerLocustDB.wal_size, held by an
@@ -357,7 +497,7 @@ fn body(sc: Scenario, report: Arc<Report>, sched: BoundedDfs) {
                                         let d = col.decode(&mut store);
                                         let v: Vec<i64> = (0..d.len())
                                             .map(|i| match d.get_raw(i) {
-                                                locustdb::verif::RawVal::Int(x) => x,
+                                                RawVal::Int(x) => x,
                                                 _ => -1,
                                             })
                                             .collect();
@@ -440,13 +580,15 @@ fn body(sc: Scenario, report: Arc<Report>, sched: BoundedDfs) {
     }
 }
 
-fn explore(sc: Scenario, bound: usize, cap: u64, forced: Option<Vec<usize>>) -> (Arc<Report>, (u64, u64), usize, bool, Option<String>, Option<String>) {
+fn explore(sc: Scenario, bound: usize, cap: u64, forced: Option<Vec<usize>>) -> (Arc<Report>, (u64, u64, u64), usize, bool, Option<String>, Option<(String, Vec<usize>)>) {
     let report = Arc::new(Report { violations: Mutex::new(vec![]), outcomes: Mutex::new(BTreeMap::new()), snapshots_checked: AtomicUsize::new(0) });
     let sh = Arc::new(Mutex::new(Shared { cap, forced, ..Default::default() }));
     let sched = BoundedDfs { bound, sh: sh.clone() };
     let mut config = shuttle::Config::new();
     config.failure_persistence = shuttle::FailurePersistence::None;
     config.silence_warnings = true;
+    // an execution of these scenarios takes a few hundred decisions; one that takes 50 000 is a livelock (reported with the schedule)
+    config.max_steps = shuttle::MaxSteps::FailAfter(50_000);
     let r2 = report.clone();
     let s2 = sched.clone();
     let runner = shuttle::Runner::new(sched, config);
@@ -464,7 +606,35 @@ fn explore(sc: Scenario, bound: usize, cap: u64, forced: Option<Vec<usize>>) -> 
         }
     });
     let sh = sh.lock().unwrap();
-    (report, (sh.executions, sh.decisions), sh.max_depth, sh.capped, sh.diverged.clone(), crash)
+    if std::env::var("LSCHED_TRACE").is_ok() {
+        eprintln!("[trace] execution length classes (<200, <1000, <5000, more): {:?}; first long execution as (task, run length) pairs: {:?}", sh.length_classes, sh.long_example);
+    }
+    if crash.is_some() && std::env::var("LSCHED_TRACE").is_ok() {
+        let n = sh.stack.len();
+        let mut rle: Vec<(usize, usize)> = vec![];
+        for f in sh.stack.iter() {
+            let t = f.options[f.chosen];
+            match rle.last_mut() {
+                Some((lt, n)) if *lt == t => *n += 1,
+                _ => rle.push((t, 1)),
+            }
+        }
+        eprintln!("[trace] fairness switches {}; run lengths of chosen tasks: {:?}", sh.fairness_switches, rle.iter().take(40).collect::<Vec<_>>());
+        eprintln!("[trace] crash after {} decisions; first 120 choices {:?}; last decisions {:?}", n, sh.stack.iter().take(120).map(|f| f.chosen).collect::<Vec<_>>(), sh.stack[n.saturating_sub(12)..].iter().map(|f| (f.options.clone(), f.chosen)).collect::<Vec<_>>());
+    }
+    // the schedule that crashed: its first few hundred choices (a livelock repeats itself afterwards)
+    let crash = crash.map(|c| (c, sh.stack.iter().take(600).map(|f| f.chosen).collect::<Vec<_>>()));
+    (report, (sh.executions, sh.decisions, sh.fairness_switches), sh.max_depth, sh.capped, sh.diverged.clone(), crash)
+}
+
+fn crash_sig(msg: &str) -> String {
+    if msg.contains("exceeded max_steps") {
+        "C10:locks:livelock".into()
+    } else if msg.contains("deadlock") {
+        "C10:locks:deadlock".into()
+    } else {
+        "C10:locks:panic".into()
+    }
 }
 
 fn main() {
@@ -472,7 +642,23 @@ fn main() {
     if args.len() >= 4 && args[1] == "replay" {
         let sc = SCENARIOS.iter().find(|s| s.name == args[2]).copied().expect("scenario name");
         let choices: Vec<usize> = args[3].split(',').filter(|x| !x.is_empty()).map(|x| x.parse().unwrap()).collect();
-        let (report, _, _, _, diverged, crash) = explore(sc, usize::MAX, 1, Some(choices));
+        let lines = Arc::new(Mutex::new(vec![]));
+        let (report, _, _, _, diverged, crash) = if std::env::var("LSCHED_EVENTS").is_ok() {
+            let rec = Rec { lines: lines.clone() };
+            tracing::subscriber::with_default(rec, || explore(sc, usize::MAX, 1, Some(choices)))
+        } else {
+            explore(sc, usize::MAX, 1, Some(choices))
+        };
+        if std::env::var("LSCHED_EVENTS").is_ok() {
+            let l = lines.lock().unwrap();
+            for x in l.iter().filter(|x| x.contains("waiting to acquire") || x.contains("acquiring") || x.contains("scheduling decision")).rev().take(60).collect::<Vec<_>>().into_iter().rev() {
+                let site = x.split("static_create_location: Location { file: \"").nth(1).map(|r| r.split(", col").next().unwrap_or("").replace("\", line:", ":")).unwrap_or_default();
+                let head: String = x.chars().take(70).collect();
+                let holder = x.split("holder=").nth(1).map(|r| r.split(" semaphore").next().unwrap_or("").to_string()).unwrap_or_default();
+                let dec = if x.contains("scheduling decision") { x.split("message=").nth(1).unwrap_or("").to_string() } else { String::new() };
+                eprintln!("{} | {} | holder={} {}", head, site.split('/').last().unwrap_or(""), holder, dec);
+            }
+        }
         if let Some(d) = diverged {
             println!("{}", serde_json::json!({"machinery_error": d}));
             std::process::exit(2);
@@ -482,8 +668,8 @@ fn main() {
             println!("{}", serde_json::json!({"sig": v.sig, "what": v.what}));
             std::process::exit(1);
         }
-        if let Some(c) = crash {
-            println!("{}", serde_json::json!({"sig": "C10:locks:panic-or-deadlock", "what": c}));
+        if let Some((c, _)) = crash {
+            println!("{}", serde_json::json!({"sig": crash_sig(&c), "what": c.lines().next().unwrap_or("")}));
             std::process::exit(1);
         }
         println!("{}", serde_json::json!({"ok": true}));
@@ -540,20 +726,22 @@ fn main() {
             }
         }
         // four threads: one preemption less
-        let bound = if sc.two_queries { bound - 1 } else { bound };
+        let threads = (if sc.load { 0 } else { 1 }) + sc.ingest as usize + sc.evict as usize + if sc.two_queries { 2 } else { 1 };
+        let bound = if threads >= 4 { bound - 1 } else { bound };
         let t0 = std::time::Instant::now();
-        let (report, (executions, decisions), max_depth, capped, diverged, crash) = explore(sc, bound, cap, None);
+        let (report, (executions, decisions, fairness), max_depth, capped, diverged, crash) = explore(sc, bound, cap, None);
         let violations: Vec<_> = report.violations.lock().unwrap().iter().map(|v| serde_json::json!({"sig": v.sig, "what": v.what, "scenario": sc.name, "choices": v.choices})).collect();
         let mut violations = violations;
-        if let Some(c) = &crash {
+        if let Some((c, choices)) = &crash {
             let first_line = c.lines().next().unwrap_or("").to_string();
-            violations.push(serde_json::json!({"sig": "C10:locks:panic-or-deadlock", "what": format!("scenario {}: {}", sc.name, first_line), "scenario": sc.name, "choices": []}));
+            violations.push(serde_json::json!({"sig": crash_sig(c), "what": format!("scenario {}: {}", sc.name, first_line), "scenario": sc.name, "choices": choices}));
         }
         out.push(serde_json::json!({
             "scenario": sc.name,
             "preemption_bound": bound,
             "executions": executions,
             "decisions": decisions,
+            "spin_fairness_switches": fairness,
             "max_decisions_in_one_execution": max_depth,
             "snapshots_checked": report.snapshots_checked.load(Ordering::SeqCst),
             "outcomes": *report.outcomes.lock().unwrap(),
